@@ -440,14 +440,18 @@ impl FaceModify {
             face.bg = Some(bg);
         }
         if let Some(underline) = self.underline {
-            face.attrs |= underline.into();
+            // replace underline style, `UnderlineStyle::None` removes it
+            face.attrs = face
+                .attrs
+                .remove(FaceAttrs::UNDERLINE)
+                .insert(underline.into());
         }
         // TODO: underline_color
         for (update, flag) in [
             (self.bold, FaceAttrs::BOLD),
             (self.italic, FaceAttrs::ITALIC),
             (self.blink, FaceAttrs::BLINK),
-            (self.strike, FaceAttrs::BOLD),
+            (self.strike, FaceAttrs::STRIKE),
         ] {
             match update {
                 Some(true) => face.attrs = face.attrs.insert(flag),
